@@ -109,6 +109,25 @@ def mon_own_directory(steps, meta):
 wk.MONITORS["own_directory"] = mon_own_directory
 
 
+def mon_queue_in_force(steps, meta):
+    """'creates entries only beneath its configured ... queue ... locations': after the configuration was rewritten with
+    another queue_path (and accepted), the entry of the next accepted write appears beneath THAT directory"""
+    if not meta.get("queue_after"):
+        return None
+    dumps = [st.dump for st in steps if st.dump is not None]
+    if len(dumps) < 2:
+        return None
+    prev, last = dumps[-2], dumps[-1]
+    new = [p for p, e in last.items() if e[0] == "link" and p not in prev and p.startswith("/k/var/queue")]
+    wrong = [p for p in new if not p.startswith(meta["queue_after"] + "/")]
+    if wrong or not new:
+        return "queue_path is %s since the reload, but the entry of the next write appeared as %s" % (meta["queue_after"], wrong or "nothing")
+    return None
+
+
+wk.MONITORS["queue_in_force"] = mon_queue_in_force
+
+
 def main(rep):
     exe_impl, exe_model = vlib.prepare(rep)
     found = False
@@ -142,6 +161,23 @@ def main(rep):
         # names as users write them: blanks, a literal " (deleted)" at the end (what the kernel appends to the names of
         # unlinked files - these are linked), tildes, several dots: each file has its own store directory, named like it
         ncases = []
+        import copy
+        for i in range(6 if rep.tier == "quick" else 40):
+            s = wc.Script()
+            cfg = wc.setup_world(s, wc.base_cfg(deb=rng.choice([0, 2])))
+            s.start()
+            s.exec(3, wc.X + "/vim")
+            c2 = copy.deepcopy(cfg)
+            c2.queue = wc.R + "/k/var/queue%d" % rng.choice([2, 3])
+            s.config(c2)
+            s.write(rng.choice([3, 9]), wc.CFG_PATH)
+            s.dump()
+            f = rng.choice([wc.WATCH + "/inc/a.txt", wc.WATCH + "/n"])
+            s.put(f, "after the move %d" % i)
+            s.dump()
+            s.write(3, f)
+            s.dump()
+            ncases.append(("q%d" % i, s.text(), {"queue_after": c2.queue[len(wc.R):]}))
         for i in range(12 if rep.tier == "quick" else 120):
             s = wc.Script()
             wc.setup_world(s, wc.base_cfg(deb=0))
@@ -164,7 +200,7 @@ def main(rep):
             validated += v2
         if not found:
             # (the call log separates its fields by blanks, so names with blanks are judged by the dumps, not by the log)
-            f2, v2 = wk.run_cases(rep, exe_impl, exe_model, ncases, ["layout", "faithful", "own_directory"], what="names")
+            f2, v2 = wk.run_cases(rep, exe_impl, exe_model, ncases, ["queue_in_force", "layout", "faithful", "own_directory"], what="names")
             wcases = wcases + ncases
             found = found or f2
             validated += v2
